@@ -11,8 +11,10 @@ import Driver.H3Parser
 import Driver.RecvPath
 import Driver.Prot
 import Driver.Tls
+import Driver.Adapter
 
 structure World where
+  adp : Drv.AdpW := {}
   tls : Drv.TlsW := {}
   prot : Drv.ProtW := {}
   rx : Drv.RxW := {}
@@ -72,6 +74,9 @@ def step (w : World) (line : String) : World × String :=
     else if t.startsWith "tls." ∨ t.startsWith "tlsc." then
       let (s, o) := Drv.stepTls w.tls toks
       ({ w with tls := s }, o)
+    else if t.startsWith "adp." then
+      let (s, o) := Drv.stepAdapter w.adp toks
+      ({ w with adp := s }, o)
     else (w, "bad-op")
 
 partial def loop (hin hout : IO.FS.Stream) (w : World) : IO Unit := do
